@@ -55,6 +55,10 @@ def make_world(ctx, ending, idx):
         w["tests"][0]["body"]["chdir"] = True
     if ending in ("interrupt", "ttd-raises-interrupt") and w["tests"]:
         w["tests"][-1]["body"]["exc"] = "interrupt"
+        # a test that replaces sys.stdout itself cannot put it back when it is interrupted: that would be the
+        # test's leak, not the runner's
+        w["tests"][-1].pop("ownstream", None)
+        w["tests"][-1].pop("rebind", None)
     d = os.path.join(ctx.tmp, "g%04d" % idx)
     worlds.materialize(w, d)
     return d
